@@ -270,7 +270,7 @@ def trace_origin(name: str, source: str, *, __all__: bool = False) -> _TraceResu
 
                 if node.module in constants.PYTHON_311_STDLIB:
                     # Logic copied from _get_exports_list() in os.py from python3.12.0b2
-                    module = __import__(node.module)
+                    module = importlib.import_module(node.module)
                     exports = getattr(
                         module, "__all__", [x for x in dir(module) if not x.startswith("_")]
                     )
@@ -287,7 +287,7 @@ def trace_origin(name: str, source: str, *, __all__: bool = False) -> _TraceResu
                 # we might end up executing code that we shouldn't if we try that. So
                 # only builtins are imported this way.
                 if origin in {"frozen", "built-in"}:
-                    module = __import__(node.module)
+                    module = importlib.import_module(node.module)
                     exports = getattr(
                         module, "__all__", [x for x in dir(module) if not x.startswith("_")]
                     )
